@@ -863,7 +863,7 @@ fn self_load(w: &Written, fault_free: bool, problems: &mut Problems) {
             return;
         }
     };
-    query_every_glyph(&mut font, w.glyphs, w.kind, fault_free, w.kind == WrittenKind::Instance, problems);
+    query_every_glyph(&mut font, w.glyphs, w.kind, fault_free, w.kind == WrittenKind::Instance, w.source_ok.as_deref(), problems);
 }
 
 fn query_every_glyph<P: FontTableProvider + allsorts::tables::SfntVersion>(
@@ -872,6 +872,7 @@ fn query_every_glyph<P: FontTableProvider + allsorts::tables::SfntVersion>(
     kind: WrittenKind,
     fault_free: bool,
     check_static: bool,
+    source_ok: Option<&[bool]>,
     problems: &mut Problems,
 ) {
     let mut bad = |name: &str, msg: String| problems.push((name.to_string(), msg));
@@ -920,6 +921,12 @@ fn query_every_glyph<P: FontTableProvider + allsorts::tables::SfntVersion>(
                                 if fault_free {
                                     bad("self-load-outline", format!("glyph {}: {:?}", g, e));
                                     break;
+                                } else if source_ok.and_then(|v| v.get(usize::from(g))) == Some(&true) {
+                                    bad(
+                                        "self-load-outline-regression",
+                                        format!("glyph {} was readable in the source but not in the output: {:?}", g, e),
+                                    );
+                                    break;
                                 }
                             }
                         }
@@ -936,6 +943,12 @@ fn query_every_glyph<P: FontTableProvider + allsorts::tables::SfntVersion>(
                     if let Err(e) = cff.visit(g, &mut sink) {
                         if fault_free {
                             bad("self-load-outline", format!("glyph {}: {:?}", g, e));
+                            break;
+                        } else if source_ok.and_then(|v| v.get(usize::from(g))) == Some(&true) {
+                            bad(
+                                "self-load-outline-regression",
+                                format!("glyph {} was readable in the source but not in the output: {:?}", g, e),
+                            );
                             break;
                         }
                     }
@@ -960,6 +973,12 @@ fn bare_cff(w: &Written, fault_free: bool, problems: &mut Problems) {
                         problems.push((
                             "self-load-outline".into(),
                             format!("bare CFF glyph {}: {:?}", g, e),
+                        ));
+                        break;
+                    } else if w.source_ok.as_deref().and_then(|v| v.get(usize::from(g))) == Some(&true) {
+                        problems.push((
+                            "self-load-outline-regression".into(),
+                            format!("bare CFF glyph {} was readable in the source but not in the output: {:?}", g, e),
                         ));
                         break;
                     }
@@ -1000,7 +1019,7 @@ pub fn self_load_provider<P: FontTableProvider + allsorts::tables::SfntVersion>(
             return;
         }
     };
-    query_every_glyph(&mut font, None, WrittenKind::Instance, true, false, problems);
+    query_every_glyph(&mut font, None, WrittenKind::Instance, true, false, None, problems);
 }
 
 /// `source_loadable`: `Font::new` succeeds on the source provider. The self-load half is a
